@@ -13,6 +13,7 @@ pub fn mix(a: u32, b: u32) -> u32 {
 
 /// Masks selected by an input value (lattice programs).
 pub const MASKS: [u32; 4] = [0xFF, 0x0F, 0x33, 0x55];
+pub const SAT_MASKS: [u32; 8] = [0x01, 0x02, 0x04, 0x08, 0x03, 0x0C, 0x0F, 0xFF];
 
 #[derive(Clone, Copy, Debug, PartialEq, Eq, Hash, PartialOrd, Ord, Serialize, Deserialize)]
 pub enum D {
@@ -93,6 +94,11 @@ pub enum Op {
     CallInc { node: u8, arg: Src, slot: u8, field: u8 },
     /// acc = !call & 1 ; Div self-loop oscillator
     CallNot { node: u8, arg: Src },
+    /// saturating short-circuit: `if acc & mask != mask { acc |= call & mask }`. The value is that
+    /// of `acc |= call & mask` (a call that cannot contribute is skipped), but the *dependency* is
+    /// value-dependent: it disappears once the earlier ops of the body have produced the masked
+    /// bits, e.g. in a later fixpoint iteration. Fix / FixJoin programs only.
+    CallSat { node: u8, arg: Src, mask: u32 },
 }
 
 #[derive(Clone, Debug, PartialEq, Eq, Hash, Serialize, Deserialize)]
@@ -191,6 +197,9 @@ pub struct Profile {
     /// `Get x · Set <a field guarding some If> · Get x · Get <static callees of x>`:
     /// entry, reshape of the call graph, re-entry, members visited on their own
     pub episode_pct: u32,
+    /// percentage of lattice programs that are restricted to Fix/FixJoin functions and use
+    /// `CallSat` (value-dependent dependencies)
+    pub sat_pct: u32,
 }
 
 impl Profile {
@@ -221,6 +230,7 @@ impl Profile {
             specify_any_pct: 0,
             coarse_hash_pct: 0,
             episode_pct: 0,
+            sat_pct: 0,
         }
     }
 }
@@ -477,7 +487,7 @@ pub fn static_callees(ops: &[Op]) -> Vec<u8> {
     let mut out = vec![];
     for o in ops {
         match o {
-            Op::Call { node, .. } | Op::CallMask { node, .. } | Op::CallShift { node, .. } | Op::CallInc { node, .. } | Op::CallNot { node, .. } => out.push(*node),
+            Op::Call { node, .. } | Op::CallMask { node, .. } | Op::CallShift { node, .. } | Op::CallInc { node, .. } | Op::CallNot { node, .. } | Op::CallSat { node, .. } => out.push(*node),
             Op::If { then, els, .. } => {
                 out.extend(static_callees(then));
                 out.extend(static_callees(els));
@@ -528,11 +538,12 @@ pub fn gen_lattice_program(t: &mut Tape, pf: &Profile) -> Program {
     }
     // layer-1 kinds: fix, fix_join, fall, div, and (C14) plain = no cycle recovery
     let cyc_kinds = [Kind::Fix, Kind::FixJoin, Kind::Fall, Kind::Div, Kind::Plain];
-    let cyc_w = [pf.kinds[6], pf.kinds[7], pf.kinds[8], pf.kinds[9], pf.kinds[0]];
+    let sat = pf.sat_pct > 0 && t.pick(100) < pf.sat_pct;
+    let cyc_w = if sat { [pf.kinds[6].max(1), pf.kinds[7], 0, 0, 0] } else { [pf.kinds[6], pf.kinds[7], pf.kinds[8], pf.kinds[9], pf.kinds[0]] };
     for i in 0..l1 {
         let kind = cyc_kinds[t.weighted(&cyc_w)];
         let nops = 1 + t.pick(pf.max_ops);
-        let mut body = lat_ops(t, nops, l0, l0 + l1, l0 + i, kind, nslots, 0, pf);
+        let mut body = lat_ops(t, nops, l0, l0 + l1, l0 + i, kind, nslots, 0, pf, sat);
         if kind == Kind::Div && t.chance(1, 5) {
             // self-loop oscillator, always the last op so the node's value is exactly !self & 1
             body.push(Op::CallNot { node: (l0 + i) as u8, arg: Src::Const(0) });
@@ -542,7 +553,7 @@ pub fn gen_lattice_program(t: &mut Tape, pf: &Profile) -> Program {
     for _ in 0..l2 {
         let nops = 1 + t.pick(3);
         let lim = nodes.len() as u32;
-        let body = lat_ops(t, nops, lim, lim, u32::MAX, Kind::Plain, nslots, 0, pf);
+        let body = lat_ops(t, nops, lim, lim, u32::MAX, Kind::Plain, nslots, 0, pf, sat);
         nodes.push(Node { kind: Kind::Plain, nargs: 1, body, ret_h: false });
     }
     Program {
@@ -559,7 +570,7 @@ pub fn gen_lattice_program(t: &mut Tape, pf: &Profile) -> Program {
 }
 
 #[allow(clippy::too_many_arguments)]
-fn lat_ops(t: &mut Tape, n: u32, _l0: u32, callable: u32, me: u32, kind: Kind, nslots: u32, depth: u32, pf: &Profile) -> Vec<Op> {
+fn lat_ops(t: &mut Tape, n: u32, _l0: u32, callable: u32, me: u32, kind: Kind, nslots: u32, depth: u32, pf: &Profile, sat: bool) -> Vec<Op> {
     let mut v = Vec::new();
     for _ in 0..n {
         // read, call, callmask, callshift, if
@@ -578,6 +589,7 @@ fn lat_ops(t: &mut Tape, n: u32, _l0: u32, callable: u32, me: u32, kind: Kind, n
             0 => Op::Read { slot, field },
             // Div bodies: only increments of a callee (cap from an input; cap value 3 = none)
             1 | 2 | 3 if kind == Kind::Div => Op::CallInc { node, arg, slot, field },
+            1 | 2 if sat && t.chance(1, 2) => Op::CallSat { node, arg, mask: SAT_MASKS[t.pick(SAT_MASKS.len() as u32) as usize] },
             1 => Op::Call { node, arg },
             2 => Op::CallMask { node, arg, slot, field },
             3 => Op::CallShift { node, arg },
@@ -585,8 +597,8 @@ fn lat_ops(t: &mut Tape, n: u32, _l0: u32, callable: u32, me: u32, kind: Kind, n
                 let thr = 1 + t.pick(VMOD - 1);
                 let nt = t.pick(3);
                 let ne = t.pick(3);
-                let then = lat_ops(t, nt, _l0, callable, me, kind, nslots, depth + 1, pf);
-                let els = lat_ops(t, ne, _l0, callable, me, kind, nslots, depth + 1, pf);
+                let then = lat_ops(t, nt, _l0, callable, me, kind, nslots, depth + 1, pf, sat);
+                let els = lat_ops(t, ne, _l0, callable, me, kind, nslots, depth + 1, pf, sat);
                 Op::If { slot, field, thr, then, els }
             }
         };
